@@ -5,7 +5,7 @@ divergence, curl, lie_bracket, jacobian_dict / jacobian_matrix, flow_derivatives
   finite-difference modes including the division by the spacing (traced on 6 symbolic samples; for every length
   2..9, every position must be the stencil at the clamped (replicate-padded) neighbours; other axes and per-batch
   spacings must give the same stencils)
-* gen_avg_prewitt / gen_avg_sobel : the zero-padded smoothing applied across the other axes
+* gen_avg_prewitt / gen_avg_sobel : the replicate-padded smoothing applied across the other axes
 * spatial_derivatives for every finite-difference mode, D = 2, 3, first and second order keys (mixed, unsorted,
   repeated), scalar / per-axis / per-batch spacing, checked sample by sample (exact rationals) against the closed-form
   composition `for each letter of the sorted key: [smooth the other axes;] difference along that axis` -- the model of
@@ -28,7 +28,7 @@ import numpy as np
 import symtorch as st
 import trlib
 from symtorch import E, TraceError
-from tr_units.bspline import patched, simple_float_literals, fr_eval
+from tr_units.bspline import patched, simple_float_literals, fr_eval, int_tolist
 
 MODES = ["forward", "backward", "central", "forward_central_backward", "prewitt", "sobel"]
 
@@ -139,8 +139,9 @@ def fd_line(mode, l, h):
 
 
 def avg_line(k, l):
+    """3-tap smoothing with replicate padding (clamped neighbours)"""
     n = len(l)
-    z = lambda i: l[i] if 0 <= i < n else 0
+    z = lambda i: l[min(max(i, 0), n - 1)]
     return [k[0] * z(i - 1) + k[1] * l[i] + k[2] * z(i + 1) for i in range(n)]
 
 
@@ -467,12 +468,43 @@ def formulas_section(flow_mod):
     return out
 
 
+def check_conv1d_padding(img, enum_mod):
+    """core.image.conv1d: int padding = zero padding of that margin; PaddingMode.NONE = no padding; ZEROS / REPLICATE = 'same'
+    padding with zeros / replicated boundary values, along any tensor axis"""
+    PM = enum_mod.PaddingMode
+    for K_ in (3, 5):
+        ker = st.Tensor(np.array([E.var(f"k{i}") for i in range(K_)], dtype=object))
+        r_ = K_ // 2
+        for shape, dim in (((1, 1, 6), 2), ((1, 2, 3, 5), 3), ((1, 1, 5, 2), 2)):
+            data = sym(shape)
+            n = shape[dim]
+            for pad, kind in ((PM.REPLICATE, "rep"), (PM.ZEROS, "zero"), (PM.NONE, "none"), (r_, "zero"), (0, "none"), ("replicate", "rep")):
+                out = img.conv1d(data, ker, dim=dim, padding=pad)
+                n_out = n if kind != "none" else n - K_ + 1
+                want_shape = tuple(n_out if a == dim else s_ for a, s_ in enumerate(shape))
+                if out.shape != want_shape:
+                    raise TraceError(f"conv1d(padding={pad}) output shape {out.shape}, expected {want_shape}")
+                for idx in np.ndindex(want_shape):
+                    terms = E.const(0)
+                    for t in range(K_):
+                        j = idx[dim] + t - (0 if kind == "none" else r_)
+                        if kind == "rep":
+                            j = min(max(j, 0), n - 1)
+                        if 0 <= j < n:
+                            src = list(idx)
+                            src[dim] = j
+                            terms = terms + E.var(f"k{t}") * data.a[tuple(src)]
+                    if not sem_same(out.a[idx], terms):
+                        raise TraceError(f"conv1d(padding={pad}, dim={dim}) at {idx} is not the {kind}-padded correlation")
+
+
 def generate(loader):
     img = loader.load("deepali.core.image")
     flow_mod = loader.load("deepali.core.flow")
     out = ["Section Gen.", "Context {K : fld}.", ""]
-    with simple_float_literals():
+    with simple_float_literals(), int_tolist():
         s, _ = stencil_section(img)
+        check_conv1d_padding(img, loader.load("deepali.core.enum"))
         kernels = avg_kernels(img)
         check_spatial_derivatives(img, kernels)
         check_gaussian_mode(img)
@@ -482,7 +514,7 @@ def generate(loader):
     for mode in ("prewitt", "sobel"):
         k = kernels[mode]
         body = " + ".join(f"{st.to_coq(E.const(c))} * {v}" for c, v in zip(k, "abc"))
-        out.append(f"(* smoothing across the other axes in mode '{mode}' (zero padded) *)\n"
+        out.append(f"(* smoothing across the other axes in mode '{mode}' (replicate padded: clamped neighbours) *)\n"
                    f"Definition gen_avg_{mode} (a b c : K) : K :=\n  {body}.\n")
     out += f
     out.append("End Gen.\n")
